@@ -219,6 +219,7 @@ func childMain(args []string) {
 	idx, _ := strconv.Atoi(args[1])
 	c := core.New("C16", "exploration") // only for Rand/tier: children never call Finish
 	r := newRec(fmt.Sprintf("%s-%d", args[0], idx))
+	curRec = r
 	silenceLindbLogs()
 	switch args[0] {
 	case "convert":
